@@ -39,6 +39,9 @@ Fixpoint ends_with (suf s : string) : bool :=
   (s =? suf) || match s with EmptyString => false | String _ r => ends_with suf r end.
 Definition is_attr_operator (tag : string) : bool := String.prefix "attr::" tag && ends_with "::marker" tag.
 
+(* names in the value map and in attr::<name>::* tags are compared normalised once repaired *)
+Definition tagkey (cfg : vcfg) (n : string) : string := if f_w3c_norm_keys cfg then cv n else n.
+
 Definition process_filter (cfg : vcfg) (m : list (string * option string)) (tag tagv : string) (f : filter) : bool :=
   if tag =? "schema_id" then field false (f_schema_id f) tagv
   else if tag =? "schema_issuer_did" then field true (f_schema_issuer f) tagv
@@ -50,7 +53,7 @@ Definition process_filter (cfg : vcfg) (m : list (string * option string)) (tag 
   else if tag =? "issuer_id" then field false (f_issuer f) tagv
   else match internal_tag tag with
        | Some (name, is_marker) =>
-           match assoc name m with
+           match assoc (tagkey cfg name) m with
            | Some (Some revealed) => if f_marker cfg && is_marker then true else revealed =? tagv
            | Some None => true
            | None => is_attr_operator tag
